@@ -529,7 +529,7 @@ fn sym(m: &Model, ctx: &mut Ctx) {
     ctx.floor("C02.sym/decisions-over-ASN1Type", n_matches, 45);
 }
 
-fn order(m: &Model, ctx: &mut Ctx) {
+pub fn order(m: &Model, ctx: &mut Ctx) {
     const BAD: [&str; 24] = ["filter", "filter_map", "skip", "skip_while", "take", "take_while", "rev", "step_by", "sort", "sort_by", "sort_by_key", "sort_unstable", "sort_unstable_by", "dedup", "dedup_by", "dedup_by_key", "retain", "swap", "swap_remove", "remove", "truncate", "pop", "drain", "reverse"];
     let audit: Value = std::fs::read_to_string(ctx.verif.join("audit/order.json")).ok().and_then(|s| serde_json::from_str(&s).ok()).unwrap_or(json!({"benign": {}}));
     let benign = audit["benign"].as_object().cloned().unwrap_or_default();
